@@ -142,22 +142,49 @@ theorem uniform_ok {env : Env} {a b f : PyFloat} {st st' : GS} (h : uniform env 
     · simp at h
   · simp at h
 
+theorem PyFloat.eq_le {a b : PyFloat} (h : PyFloat.eq a b = true) :
+    PyFloat.le a a = true ∧ PyFloat.le a b = true := by
+  cases a <;> cases b <;> simp_all [PyFloat.eq, PyFloat.le]
+  all_goals exact Rat.le_refl
+
+/-- the shortcut of `random_float` (fix F20): equal ends return the end itself, no draw -/
+theorem randomFloat_eq_ok {env : Env} {lo hi : PyFloat} {loDec hiDec : Option Rat} {prec : Option Nat}
+    {st st' : GS} {f : PyFloat} (he : PyFloat.eq lo hi = true)
+    (h : randomFloat env lo hi loDec hiDec prec st = .ok (f, st')) : f = lo ∧ st' = st := by
+  unfold randomFloat at h
+  split at h
+  · simp [G.fail] at h
+  · simp only [pure] at h
+    obtain ⟨rfl, rfl⟩ := G.pure_ok h
+    exact ⟨rfl, rfl⟩
+
 /-- inversion of the grid branch of `randomFloat` -/
 theorem randomFloat_grid_ok {env : Env} {lo hi : PyFloat} {loDec hiDec : Option Rat} {p : Nat}
-    {st st' : GS} {f : PyFloat}
+    {st st' : GS} {f : PyFloat} (hne : PyFloat.eq lo hi = false)
     (h : randomFloat env lo hi loDec hiDec (some p) st = .ok (f, st')) :
     ∃ (l r k : Int), decCeil lo loDec p = .ok l ∧ decFloor hi hiDec p = .ok r ∧ l ≤ k ∧ k ≤ r ∧
       f = roundP env (env.fl ((k : Rat) / ((10 ^ p : Nat) : Rat))) p := by
   unfold randomFloat at h
   split at h
   · simp [G.fail] at h
-  · simp only [bind, pure] at h
+  · simp only [hne, Bool.false_eq_true, if_false, bind, pure] at h
     obtain ⟨l, st1, h1, h2⟩ := G.bind_ok h
     obtain ⟨r, st2, h3, h4⟩ := G.bind_ok h2
     obtain ⟨k, st3, h5, h6⟩ := G.bind_ok h4
     obtain ⟨rfl, _⟩ := G.pure_ok h6
     obtain ⟨h7, h8, _⟩ := randint_ok h5
     exact ⟨l, r, k, liftE_ok h1, liftE_ok h3, h7, h8, rfl⟩
+
+theorem randomFloat_uniform_ok {env : Env} {lo hi : PyFloat} {loDec hiDec : Option Rat}
+    {st st' : GS} {f : PyFloat} (hne : PyFloat.eq lo hi = false)
+    (h : randomFloat env lo hi loDec hiDec none st = .ok (f, st')) :
+    PyFloat.le lo f = true ∧ PyFloat.le f hi = true := by
+  unfold randomFloat at h
+  split at h
+  · simp [G.fail] at h
+  · first
+      | exact uniform_ok h
+      | (simp only [hne, Bool.false_eq_true, if_false] at h; exact uniform_ok h)
 
 /-- lower half of `randomFloat_in_bounds`: needs the decimal companion of the lower bound only,
     and only when a precision grid is used -/
@@ -166,14 +193,13 @@ theorem randomFloat_lo (env : Env) (he : EnvOK env) (lo hi : PyFloat) (loDec hiD
     (hlo : prec.isSome = true → DecOK env (some lo) loDec)
     (h : randomFloat env lo hi loDec hiDec prec st = .ok (f, st')) :
     PyFloat.le lo f = true := by
+  cases heq : PyFloat.eq lo hi with
+  | true => obtain ⟨rfl, _⟩ := randomFloat_eq_ok heq h; exact (PyFloat.eq_le heq).1
+  | false =>
   cases prec with
-  | none =>
-    unfold randomFloat at h
-    split at h
-    · simp [G.fail] at h
-    · exact (uniform_ok h).1
+  | none => exact (randomFloat_uniform_ok heq h).1
   | some p =>
-    obtain ⟨l, r, k, h1, _, h3, _, rfl⟩ := randomFloat_grid_ok h
+    obtain ⟨l, r, k, h1, _, h3, _, rfl⟩ := randomFloat_grid_ok heq h
     have hd := hlo rfl
     rw [he.round_stable]
     cases lo with
@@ -196,14 +222,13 @@ theorem randomFloat_hi (env : Env) (he : EnvOK env) (lo hi : PyFloat) (loDec hiD
     (hhi : prec.isSome = true → DecOK env (some hi) hiDec)
     (h : randomFloat env lo hi loDec hiDec prec st = .ok (f, st')) :
     PyFloat.le f hi = true := by
+  cases heq : PyFloat.eq lo hi with
+  | true => obtain ⟨rfl, _⟩ := randomFloat_eq_ok heq h; exact (PyFloat.eq_le heq).2
+  | false =>
   cases prec with
-  | none =>
-    unfold randomFloat at h
-    split at h
-    · simp [G.fail] at h
-    · exact (uniform_ok h).2
+  | none => exact (randomFloat_uniform_ok heq h).2
   | some p =>
-    obtain ⟨l, r, k, _, h2, _, h4, rfl⟩ := randomFloat_grid_ok h
+    obtain ⟨l, r, k, _, h2, _, h4, rfl⟩ := randomFloat_grid_ok heq h
     have hd := hhi rfl
     rw [he.round_stable]
     cases hi with
@@ -219,6 +244,29 @@ theorem randomFloat_hi (env : Env) (he : EnvOK env) (lo hi : PyFloat) (loDec hiD
     | pinf => simp [decFloor] at h2
     | ninf => simp [decFloor] at h2
     | nan => simp [decFloor] at h2
+
+/-- whatever `random_float` returns is a number (never nan) -/
+theorem randomFloat_not_nan (env : Env) (he : EnvOK env) (lo hi : PyFloat) (loDec hiDec : Option Rat) (prec : Option Nat)
+    (st st' : GS) (f : PyFloat) (h : randomFloat env lo hi loDec hiDec prec st = .ok (f, st')) : f ≠ .nan := by
+  cases heq : PyFloat.eq lo hi with
+  | true =>
+    obtain ⟨rfl, _⟩ := randomFloat_eq_ok heq h
+    intro hn; subst hn; simp [PyFloat.eq] at heq
+  | false =>
+  cases prec with
+  | none =>
+    have := (randomFloat_uniform_ok heq h).1
+    intro hn; subst hn; cases lo <;> simp [PyFloat.le] at this
+  | some p =>
+    obtain ⟨l, r, k, _, _, _, _, rfl⟩ := randomFloat_grid_ok heq h
+    rw [he.round_stable]
+    have := he.fl_mono ((k : Rat) / ((10 ^ p : Nat) : Rat)) _ (Rat.le_refl)
+    intro hn; rw [hn] at this; simp [PyFloat.le] at this
+
+theorem PyFloat.ninf_le {f : PyFloat} (h : f ≠ .nan) : PyFloat.le .ninf f = true := by
+  cases f <;> simp_all [PyFloat.le]
+theorem PyFloat.le_pinf {f : PyFloat} (h : f ≠ .nan) : PyFloat.le f .pinf = true := by
+  cases f <;> simp_all [PyFloat.le]
 
 /-- the precision grid stays inside the declared bounds: for every drawn grid index -/
 theorem randomFloat_in_bounds (env : Env) (he : EnvOK env) (lo hi : PyFloat) (loDec hiDec : Option Rat) (prec : Option Nat)
@@ -301,12 +349,21 @@ theorem genScalar_sound (env : Env) (he : EnvOK env) (ext : ClsItem → Nat → 
         cases prec with
         | none => simp at hp
         | some pr => exact hk.2
+      have hnn := randomFloat_not_nan env he _ _ _ _ _ _ _ _ h1
       simp only [ConformsScalar]
       refine ⟨f, rfl, by simp, ?_, ?_⟩
       · rintro m rfl
-        exact randomFloat_lo env he _ _ _ _ _ _ _ _ (fun hp => (hd hp).1) h1
+        cases m with
+        | ninf => exact PyFloat.ninf_le hnn
+        | fin q => exact randomFloat_lo env he _ _ _ _ _ _ _ _ (fun hp => (hd hp).1) h1
+        | pinf => exact randomFloat_lo env he _ _ _ _ _ _ _ _ (fun hp => (hd hp).1) h1
+        | nan => exact randomFloat_lo env he _ _ _ _ _ _ _ _ (fun hp => (hd hp).1) h1
       · rintro M rfl
-        exact randomFloat_hi env he _ _ _ _ _ _ _ _ (fun hp => (hd hp).2) h1
+        cases M with
+        | pinf => exact PyFloat.le_pinf hnn
+        | fin q => exact randomFloat_hi env he _ _ _ _ _ _ _ _ (fun hp => (hd hp).2) h1
+        | ninf => exact randomFloat_hi env he _ _ _ _ _ _ _ _ (fun hp => (hd hp).2) h1
+        | nan => exact randomFloat_hi env he _ _ _ _ _ _ _ _ (fun hp => (hd hp).2) h1
   | str x L al sub pat =>
     cases x with
     | some x =>
